@@ -49,20 +49,21 @@ GoodMaps(L, ins) == [i \in 1..Len(ins) |->
 (* family S: signature layouts *)
 Kinds == {"G", "WK", "WM", "TR", "TS", "GB"}
 KindsQ == IF Size = "quick" THEN {"G", "WK", "TS"} ELSE Kinds
+Kinds2 == IF Size = "quick" THEN {"G", "WK"} ELSE {"G", "WK", "WM", "TR", "GB"}
 Pos(nk) == (0..(nk - 1)) \cup (IF Size = "quick" /\ nk = 3 THEN {nk} ELSE {nk, 65535})
 
 SOut(n) == <<Out("script", U(n))>>
 SCase(ins, sig) == Case("A", "OTH", ins, SOut(Len(ins)), sig)
 
 \* one input, every shape, every assignment of kinds to positions, 0 / 1 / 2 maps
-MapVariants(m) == {<<>>, <<m>>, <<m, <<>>>>, <<m, m>>}
+MapVariants(m) == IF Size = "quick" THEN {<<>>, <<m>>, <<m, <<>>>>} ELSE {<<>>, <<m>>, <<m, <<>>>>, <<m, m>>}
 InitS1 == \E nk \in 1..3, thr \in 0..4 :
-          \E f \in [Pos(nk) -> (IF nk <= (IF Size = "quick" THEN 1 ELSE 2) THEN KindsQ ELSE {"G", "WK"}) \cup {"-"}] :
+          \E f \in [Pos(nk) -> (IF nk = 1 THEN KindsQ ELSE IF nk = 2 THEN Kinds2 ELSE {"G", "WK"}) \cup {"-"}] :
           \E ms \in MapVariants(MapOf(f)) :
              c = SCase(<<In(GridName(nk, thr, "a"))>>, MapsSig(ms))
 
 Shapes2 == IF Size = "quick"
-           THEN { <<1, 1, 2, 1>>, <<2, 2, 1, 1>>, <<1, 0, 2, 2>>, <<2, 0, 1, 0>> }
+           THEN { <<1, 1, 2, 1>>, <<2, 2, 1, 1>>, <<2, 0, 1, 0>> }
            ELSE { <<1, 1, 1, 1>>, <<1, 1, 2, 1>>, <<2, 1, 1, 1>>, <<2, 2, 2, 1>>, <<1, 0, 2, 2>>, <<2, 0, 1, 0>>,
                   <<2, 1, 3, 2>>, <<1, 2, 1, 1>>, <<2, 2, 1, 1>> }
 Pos2(nk) == 0..nk
@@ -94,7 +95,19 @@ InitSA == \E sh \in AggShapes : \E S \in SUBSET (0..AggTotal(sh)) : \E s \in Sig
           \E km \in {<<"G", "ok">>, <<"G", "bad">>, <<"TS", "ok">>, <<"GB", "ok">>} :
              c = SCase(AggIns(sh), AggSig(s, b, km[1], km[2]))
 
-InitS == InitS1 \/ InitS2 \/ InitS3 \/ InitSA
+\* the ends of the threshold range: 64 keys, thresholds 64 and 33
+FirstN(n, bad) == [j \in 1..n |-> Ent(j - 1, IF j - 1 = bad THEN "WK" ELSE "G")]
+Range(a, b) == [j \in 1..(b - a + 1) |-> a + j - 1]
+InitS4 == \E sl \in {"k64a", "k64b"} :
+          \/ \E n \in {32, 33, 63, 64}, bad \in {-1, 0, 31, 63} :
+                c = SCase(<<In(sl)>>, MapsSig(<<FirstN(n, bad)>>))
+          \/ \E n \in {32, 33, 63, 64}, km \in {<<"G", "ok">>, <<"TS", "ok">>} :
+                c = SCase(<<In(sl)>>, AggSig(Range(0, n - 1), Range(0, n - 1), km[1], km[2]))
+          \/ c = SCase(<<In(sl)>>, AggSig(Range(1, 64), Range(0, 63), "G", "ok"))
+          \/ c = SCase(<<In("s11a"), In(sl)>>, AggSig(Range(0, 64), Range(0, 64), "G", "ok"))
+          \/ c = SCase(<<In("s11a"), In(sl)>>, AggSig(Range(0, 63), Range(0, 63), "G", "ok"))
+
+InitS == InitS1 \/ InitS2 \/ InitS3 \/ InitS4 \/ InitSA
 
 --------------------------------------------------------------------------
 (* family V: values, assets, types (C01) *)
@@ -177,7 +190,8 @@ InitV2 == \E t \in OutTypes, w \in {"A", "B"}, ts \in {"gen", "late"} :
                            x.extra, x.refs, x.sig)
 
 \* special inputs: mint, deposit, genesis, mixed with ordinary inputs
-SpecAmts == {ZeroAmt, U(1), U(2), U(3), H1, G1, Cap(-5), Cap(-4), Cap(-3), Cap(0)}
+SpecAmts == IF Size = "quick" THEN {ZeroAmt, U(1), U(3), H1, Cap(-4), Cap(-3)}
+            ELSE {ZeroAmt, U(1), U(2), U(3), H1, G1, Cap(-5), Cap(-4), Cap(-3), Cap(0)}
 SpecIns(a) ==
     { <<MintIn("next", a)>>, <<DepIn("ok", a)>>, <<GenIn>>, <<In("x1"), MintIn("next", a)>>, <<MintIn("next", a), In("x1")>>,
       <<In("b1"), DepIn("ok", a)>>, <<DepIn("ok", a), In("b1")>>, <<DepIn("ok", a), DepIn("ok", a)>>,
@@ -188,7 +202,7 @@ SpecSigs == {"cust", "wk", "custat1", "none", "empty", "aggempty"}
 InitV3 == \E a \in SpecAmts, asset \in {"XIN", "BTC", "OTH", "NEW"}, sg \in SpecSigs :
           \E ins \in SpecIns(a) :
           \E os \in { <<a>>, <<U(1)>>, <<AmtAdd(a, U(1))>>, <<a, U(1)>> } \cup (IF a.n >= 1 THEN {<<AmtAdd(a, U(-1)), U(1)>>} ELSE {}) :
-             /\ (Size = "quick" => (sg \in {"cust", "empty"} /\ (asset = "NEW" => Len(ins) = 1)))
+             /\ (Size = "quick" => (sg \in {"cust", "empty"} /\ (asset = "NEW" => Len(ins) = 1) /\ Len(os) = 1))
              /\ (\A i \in 1..Len(os) : AmtCmp(os[i], Amt(0, 0, 0, 0, -1000)) > 0 \/ os[i].c > 0)
              /\ c = [Case("A", asset, ins, ScriptOuts(os), SigOf(sg, World("A"), ins)) EXCEPT !.extra = "e0"]
 
@@ -303,7 +317,28 @@ InitP0 == \E t \in SeqSet(PTypes), store \in BOOLEAN, sn \in {"nat", "x1", "rm",
           IN c = [Case("B", "XIN", ins, <<o1>>, SigOf(sg, L0, ins))
                      EXCEPT !.extra = NatExtra(t), !.refs = NatRefs(t)]
 
-InitP == InitP0 \/ InitP1 \/ InitP2
+\* core: every input configuration with every signature container (script type)
+InitP0b == \E ii \in 1..Len(PIns), gi \in 1..Len(PSigs) :
+           LET L0 == World("B")  ins == PIns[ii]  tot == InAmt(L0, ins) IN
+           c = [Case("B", "XIN", ins, <<Out("script", IF AmtSign(tot) > 0 THEN tot ELSE U(1))>>, SigOf(PSigs[gi], L0, ins))
+                   EXCEPT !.extra = "e0"]
+\* core: every type (with mint and deposit) in its natural context with every extra class and
+\* with every signature container
+InitP0c == \E ti \in 1..Len(PTypes2) :
+           LET t == PTypes2[ti]  L0 == World("B")
+               ot == IF t \in {"mint", "deposit"} THEN "script" ELSE t
+               ins == CASE t = "mint" -> <<MintIn("next", U(3))>> [] t = "deposit" -> <<DepIn("ok", U(3))>>
+                        [] OTHER -> <<In(TypeCtx(t).slot)>>
+               tot == InAmt(L0, ins)
+               natsig == CASE t = "deposit" -> "cust" [] t = "mint" -> "empty" [] OTHER -> TypeCtx(t).sig
+           IN \/ \E ei \in 2..Len(PExtras) :
+                    c = [Case("B", "XIN", ins, <<Out(ot, tot)>>, SigOf(natsig, L0, ins))
+                            EXCEPT !.extra = PExtras[ei], !.refs = NatRefs(ot)]
+              \/ \E gi \in 1..Len(PSigs) :
+                    c = [Case("B", "XIN", ins, <<Out(ot, tot)>>, SigOf(PSigs[gi], L0, ins))
+                            EXCEPT !.extra = NatExtra(ot), !.refs = NatRefs(ot)]
+
+InitP == InitP0 \/ InitP0b \/ InitP0c \/ InitP1 \/ InitP2
 
 --------------------------------------------------------------------------
 Init == CASE Family = "S" -> InitS
